@@ -128,7 +128,7 @@ impl<'a> Gen<'a> {
             }
             _ if roll < 82 => {
                 // call a function in scope returning t
-                let cands: Vec<(String, Ty)> = cx.vars.iter().filter_map(|(n, ty)| match ty { Ty::Fn(a, r) if **r == *t => Some((n.clone(), (**a).clone())), _ => None }).collect();
+                let cands: Vec<(String, Ty)> = cx.vars.iter().filter_map(|(n, ty)| match ty { Ty::Fn(a, r) if **r == *t && !self.rec_fns.contains(n) => Some((n.clone(), (**a).clone())), _ => None }).collect();
                 if cands.is_empty() { return self.leaf(t, cx); }
                 let (f, a) = cands[self.rng.below(cands.len())].clone();
                 self.feat("call");
@@ -140,7 +140,10 @@ impl<'a> Gen<'a> {
                 // a match in the middle of a chain: whether or not it matches, the chain goes on (nil flows) and the next
                 // term replaces the verdict; variables the pattern would bind are not used afterwards (unspecified on failure)
                 self.feat("match_then_more_terms_in_same_chain");
-                let (scrut, st) = self.any(cx, d - 1);
+                // the scrutinee mentions no variable: a variable (or a tuple / one-expression block around it) would be narrowed by
+                // the pattern for the rest of the chain even when the match fails (recorded type hole)
+                let empty = Cx { vars: vec![], flow: None, param: None, in_fn: None };
+                let (scrut, st) = self.any(&empty, d - 1);
                 let mut b = vec![];
                 let p = self.pattern(&st, cx, 2, &mut b);
                 let inner = cx.with_flow(None);
@@ -387,7 +390,7 @@ impl<'a> Gen<'a> {
             }
             2 => {
                 // named tail call to an earlier function
-                let c: Vec<(String, Ty, Ty)> = cx.vars.iter().filter_map(|(n, t)| match t { Ty::Fn(a, r) if !a.is_nil() => Some((n.clone(), (**a).clone(), (**r).clone())), _ => None }).collect();
+                let c: Vec<(String, Ty, Ty)> = cx.vars.iter().filter_map(|(n, t)| match t { Ty::Fn(a, r) if !a.is_nil() && !self.rec_fns.contains(n) => Some((n.clone(), (**a).clone(), (**r).clone())), _ => None }).collect();
                 if c.is_empty() { return self.function_plain(&closure_cx, d); }
                 self.feat("fn_named_tail_call");
                 let (g, a, r) = c[self.rng.below(c.len())].clone();
@@ -534,17 +537,24 @@ pub fn check(rep: &Report) {
     let mods = refsem::std_sources("/repo");
     let items: Vec<crate::corpus::Item> = crate::corpus::load("/repo").into_iter().filter(|i| i.origin.starts_with("tests/") || i.origin.starts_with("docs")).collect();
     rep.extra("corpus_programs", json!(items.len()));
-    let n_mut = if quick { 6000 } else { 120_000 };
-    let n_gen = if quick { 12_000 } else { 400_000 };
+    let n_mut = if quick { 10_000 } else { 150_000 };
+    let n_gen = if quick { 50_000 } else { 1_000_000 };
     let total = items.len() + n_mut + n_gen;
     let findings = crate::report::load_findings();
     let _ = &findings;
+    // diagnostic watchdog: names the program of any job that runs for more than 30 s (it cannot stop it)
+    let in_flight: std::sync::Arc<std::sync::Mutex<HashMap<usize, (std::time::Instant, String)>>> = Default::default();
+    let done = std::sync::Arc::new(std::sync::atomic::AtomicBool::new(false));
+    { let in_flight = in_flight.clone(); let done = done.clone(); std::thread::spawn(move || { let mut told: std::collections::HashSet<usize> = Default::default(); while !done.load(std::sync::atomic::Ordering::Relaxed) { std::thread::sleep(std::time::Duration::from_secs(5)); for (j, (t, src)) in in_flight.lock().unwrap().iter() { if t.elapsed().as_secs() > 30 && told.insert(*j) { eprintln!("C02 slow job {} (>30s): {}", j, src); } } } }); }
     crate::pool::run_indexed(total, 512, |j| {
         let (family, src, feats): (&str, String, HashMap<&'static str, u64>) = if j < items.len() { ("corpus", items[j].src.clone(), HashMap::new()) }
         else if j < items.len() + n_mut { let mut rng = Rng::derive(rep.seed, "C02-mut", 0, j as u64); let it = &items[rng.below(items.len())]; ("mutated", mutate(&it.src, &mut rng), HashMap::new()) }
         else { let mut rng = Rng::derive(rep.seed, "C02-gen", 0, j as u64); let fuel = *rng.pick(&[4i64, 8, 16, 30, 60]); let nilb = rng.chance(1, 8); let mut g = Gen::new(&mut rng, fuel); g.allow_nil_binds = nilb; let s = g.program(); let f = g.feats; (if nilb { "generated-nil-binders" } else { "generated" }, s, f) };
         if family == "mutated" && items.iter().any(|i| i.src == src) { rep.count("mutation_was_identity", 1); return; }
-        let v = match crate::pool::catch(|| judge(&src, &b, &mods, Some(rep))) { Ok(v) => v, Err(p) => { if p.contains("stack") { Verdict::Inconclusive("harness stack".into()) } else { Verdict::Disagree(format!("panic: {}", p), "reference or compiler panicked".into(), vec![]) } } };
+        in_flight.lock().unwrap().insert(j, (std::time::Instant::now(), src.clone()));
+        let v0 = crate::pool::catch(|| judge(&src, &b, &mods, Some(rep)));
+        in_flight.lock().unwrap().remove(&j);
+        let v = match v0 { Ok(v) => v, Err(p) => { if p.contains("stack") { Verdict::Inconclusive("harness stack".into()) } else { Verdict::Disagree(format!("panic: {}", p), "reference or compiler panicked".into(), vec![]) } } };
         match v {
             Verdict::Rejected => { rep.count(&format!("{}_rejected_by_compiler", family), 1); }
             Verdict::Inconclusive(why) => { rep.count(&format!("{}_inconclusive", family), 1); rep.count(&format!("inconclusive: {}", why), 1); }
@@ -566,6 +576,7 @@ pub fn check(rep: &Report) {
             }
         }
     });
+    done.store(true, std::sync::atomic::Ordering::Relaxed);
 }
 
 pub const RULE: &str = "for every program of the workload (repository corpus, perturbed corpus, generated programs) that the compiler accepts and the reference evaluator covers: normalised value of compile+run == normalised value of the independent reference evaluator of docs/spec.md, and error-vs-value agrees";
